@@ -19,6 +19,8 @@ import multiprocessing
 VERIF = os.path.dirname(os.path.dirname(os.path.abspath(__file__)))
 REPO = os.environ.get("FCPMC_REPO", "/repo")
 JOBS = int(os.environ.get("FCPMC_JOBS", "16"))
+# evidence and replays of runs against a scratch copy (seeded-defect runs) never overwrite the real ones
+OUT = VERIF if os.path.realpath(REPO) == "/repo" else os.environ.get("FCPMC_OUT", "/tmp/fcpmc-scratch-out")
 PYTHON = "/venv/bin/python"
 
 
@@ -148,7 +150,7 @@ class Run:
         self.extra = {}
         import shutil
 
-        shutil.rmtree(os.path.join(VERIF, "replays", prop), ignore_errors=True)
+        shutil.rmtree(os.path.join(OUT, "replays", prop), ignore_errors=True)
         self.deadline = self.t0 + float(os.environ.get("FCPMC_DEADLINE_S", "0") or 0) if os.environ.get("FCPMC_DEADLINE_S") else None
 
     def out_of_time(self):
@@ -174,7 +176,7 @@ class Run:
         seen_new = collections.OrderedDict()
         for v in new:
             seen_new.setdefault(v.class_key, []).append(v)
-        rdir = os.path.join(VERIF, "replays", self.prop)
+        rdir = os.path.join(OUT, "replays", self.prop)
         for n_written, (ck, vs) in enumerate(seen_new.items()):
             if n_written >= 12:
                 lines.append("  ... and %d more violation classes (see evidence new_violation_classes)" % (len(seen_new) - 12))
@@ -216,8 +218,8 @@ class Run:
             "wall_s": round(wall, 2),
             "violations": len(seen_new),
         }
-        os.makedirs(os.path.join(VERIF, "evidence"), exist_ok=True)
-        with open(os.path.join(VERIF, "evidence", self.prop + ".json"), "w") as f:
+        os.makedirs(os.path.join(OUT, "evidence"), exist_ok=True)
+        with open(os.path.join(OUT, "evidence", self.prop + ".json"), "w") as f:
             json.dump(ev, f, indent=1, sort_keys=True)
         for l in lines:
             print(l)
